@@ -185,7 +185,7 @@ Definition vkey_path (n : pkgname) (m : path) : N := m.   (* the repair: keyed b
 Definition get_targets_recursive := rec_gen vkey_name.
 Definition get_targets_recursive_fixed := rec_gen vkey_path.
 (* THE SWITCH (1 of 2): the key used by the recursion of cargo fmt --all (vkey_name = the code, vkey_path = the repair) *)
-Definition vkey_all := vkey_name.
+Definition vkey_all := vkey_path.
 Definition get_targets_all := rec_gen vkey_all.
 
 (* main.rs:440 get_targets_with_hitlist *)
@@ -277,7 +277,7 @@ Definition failure_code (s : status) : option Z :=
 Definition failure_code_fixed (s : status) : option Z :=
   if status_success s then None else Some (match status_code s with Some c => c | None => FAILURE end).
 (* THE SWITCH (2 of 2): how a child status contributes to the exit code *)
-Definition failure_code_of := failure_code.
+Definition failure_code_of := failure_code_fixed.
 
 Fixpoint filter_map {A B} (f : A -> option B) (l : list A) : list B :=
   match l with
